@@ -1,4 +1,4 @@
-\* C18 thorough (model checking only, 2; TraceparentFilter alone): 2 threads, <= 2 spans, <= 3 frames, 1 task, nesting <= 2, all seven headers (same trace / other caller span, other trace, both invalid kinds), all forms.
+\* C18 thorough (model checking only, 2; TraceparentFilter alone): 2 threads, <= 2 spans, <= 3 frames, 1 task, nesting <= 2, all eight headers (incl. invalid: no ids, span id only, trace id only) (same trace / other caller span, other trace, both invalid kinds), all forms.
 SPECIFICATION Spec
 CONSTANTS
     NThreads = 2
